@@ -2,3 +2,6 @@
 import Revm.Props.C03
 import Revm.Props.C05
 import Revm.Props.C13
+import Revm.Props.C27
+import Revm.Props.C32
+import Revm.Props.C04
